@@ -38,7 +38,10 @@ pub fn atom_string(mut index: u64, n: usize) -> String {
 pub const IDENTS: &[&str] = &["A", "B", "Foo", "x1", "a", "b", "Tok", "_q", "__", "N0", "T0", "f0", "Expr", "lhs"];
 pub const TIDENTS: &[&str] = &["$A", "$Tok", "$T0", "$x", "$_9", "$Foo"];
 pub const ATTRS: &[&str] = &["#[a]", "#[derive(Debug, Clone)]", "#[d(b[c]{e})]", "#[]", "#[doc = \"é 中 𝄞\"]", "#[x // y]"];
-pub const SEPARATORS: &[&str] = &[" ", "\n", "  ", "\t", " // c\n", "\r\n", "\u{a0}", "\u{2003}", "\n// é 中 𝄞 #[ $ /\n", "", "", "//\n", "\u{2028}", " //x\r\n"];
+pub const SEPARATORS: &[&str] = &[
+    " ", "\n", "  ", "\t", " // c\n", "\r\n", "\u{a0}", "\u{2003}", "\n// é 中 𝄞 #[ $ /\n", "", "", "//\n", "\u{2028}", " //x\r\n", "\u{b}", "\u{c}", "\u{85}",
+    "\u{1680}", "\u{2000}", "\u{200a}", "\u{2029}", "\u{202f}", "\u{205f}", "\u{3000}", "//c\n",
+];
 
 pub fn token_text(k: K, rng: &mut Rng) -> String {
     match k {
@@ -514,7 +517,7 @@ pub fn inject_many(items: &mut Vec<RItem>, rng: &mut Rng) -> &'static str {
         4 => {
             // k different top-level names, each defined twice
             for i in 0..k {
-                for _ in 0..2 {
+                for _ in 0..rng.range(2, 3) {
                     let p = rng.below(items.len() + 1);
                     items.insert(p, RItem::Struct { attrs: vec![], name: id(&format!("KvDup{i}")), fieldset: RFieldset::Empty });
                 }
